@@ -149,6 +149,12 @@ class IR(AuxDataContainer):
         ir.modules.extend(
             Module._from_protobuf(m, ir) for m in proto_ir.modules
         )
+        # References are resolved only now that the blocks of every module
+        # exist: first entry points and symbols, then symbolic expressions
+        # and aux data.
+        for stage in (0, 1):
+            for module in ir.modules:
+                module._decode_references(ir, stage)
         ir.cfg = CFG._from_protobuf(proto_ir.cfg.edges, ir)
         ir.aux_data.update(
             AuxDataContainer._read_protobuf_aux_data(proto_ir.aux_data, ir)
